@@ -54,6 +54,11 @@ def run(ctx):
               "pickle and dict round trips are the identity in the model; their tie is this differential check")
     coq_rows = []
     nseq = 0
+    # scripted sequences run first (select, THEN a round trip through the constructor; twice-selected sets; ...) on weighted sets in
+    # every namespace: the random sequences below reach them only with some probability
+    SCRIPTS = [["slice", "dict-flat"], ["mask", "dict-nested"], ["array", "pickle", "slice"], ["slice", "dict-flat", "mask"],
+               ["mask", "pickle", "dict-nested", "array"], ["slice", "split-concat", "dict-flat"]]
+    scripted = [(sc, ns_, w_) for sc in SCRIPTS for ns_, w_ in (("numpy", "float64"), ("torch", "float32"), ("jax", "float64"))]
     for rep in range(ctx.scale(90, 700)):
         cname = ctx.rng.choice(list(classes))
         nsname = ctx.rng.choice(["numpy", "torch", "jax"])
@@ -61,6 +66,10 @@ def run(ctx):
         n = ctx.rng.choice([3, 4, 6, 9])
         d = ctx.rng.choice([1, 2, 3])
         has = ctx.rng.choice([(1, 1, 1), (1, 1, 1), (1, 1, 0), (0, 0, 0), (0, 1, 1)])
+        script = None
+        if rep < len(scripted):
+            script, nsname, width = scripted[rep]
+            cname, has, n = "Samples", (1, 1, 1), 9
         xp, dt = NS[nsname], nsutil.native_dtype(nsname, width)
         x = np.asarray([[1000 + 10 * i + k for k in range(d)] for i in range(n)], float)
         kw = {}
@@ -86,11 +95,11 @@ def run(ctx):
         cur_idx = list(range(n))
         case = {"cls": cname, "ns": nsname, "dtype": width, "N": n, "dims": d, "fields": has}
         ok_seq = True
-        for step in range(ctx.rng.choice([1, 2, 3, 5])):
+        for step in range(len(script) if script else ctx.rng.choice([1, 2, 3, 5])):
             m = len(cur_idx)
             if m == 0:
                 break
-            kind = ctx.rng.choice(["array", "mask", "slice", "int", "pickle", "dict-flat", "dict-nested", "split-concat"])
+            kind = script[step] if script else ctx.rng.choice(["array", "mask", "slice", "int", "pickle", "dict-flat", "dict-nested", "split-concat"])
             try:
                 if kind == "array":
                     il = idx_list("array", m, ctx.rng)
@@ -222,6 +231,14 @@ def check_fields(ctx, s, cur_idx, x, has, cname, case, scal=None, ns=None, width
         if w.shape != want.shape:
             ctx.violation("rows:weights:Samples", f"{len(w)} weights for {len(want)} rows", case)
             ok = False
+        # the effective sample size the set reports is that of ITS rows (C02's formula on the selected log-weights)
+        if len(want):
+            sw = np.exp(want - want.max())
+            ess_want = float(sw.sum() ** 2 / (sw * sw).sum())
+            ess_got = nsutil.to_float(s.effective_sample_size) if s.effective_sample_size is not None else None
+            if ess_got is None or abs(ess_got - ess_want) > 1e-4 * ess_want:
+                ctx.violation("ess-of-selection:Samples", f"effective_sample_size = {ess_got}, (sum w)^2 / sum w^2 of the selected rows = {ess_want}", case)
+                ok = False
     if scal:
         for k, v in scal.items():
             g = getattr(s, k)
